@@ -155,6 +155,13 @@ def check_bep(case, ctx):
         ctx.close('C09.bep/H_act-through-TS:rev', rxn.get_delta_H(units='kcal/mol', act=True, rev=True, **kw), Er,
                   rtol=0, atol=tol, detail=d)
     # dimensionless form
+    # the same barrier in other energy units (factors from pmutt.constants, which C12 judges)
+    from pmutt import constants as c_
+    for u_ in ('kJ/mol', 'J/mol', 'cal/mol', 'eV/molecule'):
+        f_ = c_.convert_unit(initial='kcal/mol', final=u_)
+        for rev_, E_ in ((False, Ef), (True, Er)):
+            ctx.close('C09.bep/E_act-units:%s' % u_, bep.get_E_act(units=u_, reaction=rxn, rev=rev_, **kw), E_ * f_, rtol=1e-9,
+                      atol=tol * f_, detail='rev=%s' % rev_)
     ctx.close('C09.bep/EoRT_act', bep.get_EoRT_act(reaction=rxn, rev=False, **kw) * RT, Ef, rtol=0, atol=tol)
     ctx.close('C09.bep/EoRT_act:rev', bep.get_EoRT_act(reaction=rxn, rev=True, **kw) * RT, Er, rtol=0, atol=tol)
     # internal energy and enthalpy offsets use the same (forward) barrier
